@@ -239,10 +239,22 @@ func c13Handler(w *vfWorld, ck *http.Cookie, cfg c13Cfg, raw string, clientID st
 
 // c13LoadedConfigs: the same client configurations written the way the documentation
 // shows them in the configuration FILE and loaded with the real loadVerifyConfigFile.
+// c13CfgsLoaded: the configurations of the file-loaded part: the eight above plus
+// clients whose patterns Go's regexp package cannot compile (a look-ahead, as an
+// operator used to PCRE would write it): whatever the loader does with them, a
+// client with patterns configured never gets a redirect no usable pattern matches.
+func c13CfgsLoaded() []c13Cfg {
+	return append(c13Cfgs(),
+		c13Cfg{"both-uncompilable", []string{".example.com"}, []string{`^https://(?!staging)[a-z]+\.example\.com/cb$`}},
+		c13Cfg{"both-one-uncompilable", []string{"example.com"}, []string{`^https://(?!x)`, `^https://app\.example\.com/cb$`}},
+		c13Cfg{"patterns-uncompilable", nil, []string{`^https://(?!x)app\.example\.com/`, `[`}},
+	)
+}
+
 func c13LoadedConfigs(c *vfeng.Ctx) {
 	var sb strings.Builder
 	sb.WriteString("  default_email_domain: example.com\n  clients:\n")
-	for _, cfg := range c13Cfgs() {
+	for _, cfg := range c13CfgsLoaded() {
 		fmt.Fprintf(&sb, "    - client_id: %q\n      client_secret: \"s\"\n", "client-"+cfg.Name)
 		if len(cfg.Domains) > 0 {
 			sb.WriteString("      allowed_redirect_domains:\n")
@@ -265,7 +277,7 @@ func c13LoadedConfigs(c *vfeng.Ctx) {
 	defer w.Close()
 	ck := w.vfCookie("alice", AuthTypePassword)
 	urls := append(c13Liveness(), "https://app.example.com/other", "https://user-pages.example.com/~mallory/collect", "https://evil.com/cb", "https://app.example.com/x/cb", "https://xexample.com/cb", "http://app.example.com/cb", "https://app.example.com/cb?x=1")
-	for _, cfg := range c13Cfgs() {
+	for _, cfg := range c13CfgsLoaded() {
 		for _, raw := range urls {
 			v, key, what, class := c13Handler(w, ck, cfg, raw, "client-"+cfg.Name)
 			c.Eval(1)
@@ -283,7 +295,7 @@ func init() {
 	vfRegister(&vfeng.Check{
 		ID:    "C13",
 		Level: "model_checking",
-		Rule:  "the 8 client configurations written into a generated configuration file and loaded with the real loadVerifyConfigFile x 13 URLs through the real authorization handler; exhaustive URL grammar (scheme x userinfo x host x port x path x query x fragment) x 8 client configurations on the real CanRedirectToURL, and every 7th string plus all liveness rows through the real /idp/oauth2/authorize judging the emitted Location; oracle: independent WHATWG-subset parser decides the host a browser navigates to; class = (config, accepted, reason)",
+		Rule:  "the 8 client configurations and 3 with patterns Go's regexp cannot compile, written into a generated configuration file and loaded with the real loadVerifyConfigFile x 13 URLs through the real authorization handler; exhaustive URL grammar (scheme x userinfo x host x port x path x query x fragment) x 8 client configurations on the real CanRedirectToURL, and every 7th string plus all liveness rows through the real /idp/oauth2/authorize judging the emitted Location; oracle: independent WHATWG-subset parser decides the host a browser navigates to; class = (config, accepted, reason)",
 		Assumptions: []string{"WHATWG URL parsing is modelled by a 150-line subset (ASCII hosts only; IDNA / non-ASCII out of scope)", "an explicit port on an allowed host is the same host; a bare '?' and fragments are observed, not judged (DESIGN 2.5)", "for pattern-only clients the operator's pattern is the whole host policy"},
 		Bounds: func(tier string) map[string]interface{} {
 			n := c13Enumerate(func(int, string) {})
